@@ -159,8 +159,8 @@ def stale_view_under_faults(ctx, backend, aspect, cfg='asan'):
             else: r = B.call('C_DestroyObject', s=sb, o=hb[0])
             assert r['rv'] == 0, r['rvname']
             root = os.path.join(d, 'tokens')
-            if k == 0: A.call('fs', mode='count', root=root)
-            else: A.call('fs', mode='fail', root=root, k=k, errno=errno)
+            if k == 0: A.call('fs', mode='count', root=root, reads=True)
+            else: A.call('fs', mode='fail', root=root, k=k, errno=errno, reads=True)      # read-only opens are operations too: the reload is one
             q = A.call('C_GetAttributeValue', s=sa, o=h, tmpl=[{'t': ck.CKA_VALUE, 'buf': 64}, {'t': ck.CKA_ID, 'buf': 64}]); st = A.call('fs', mode='status'); A.call('fs', mode='off')
             val = (q.get('tmpl') or [{}, {}])[0].get('data'); idv = (q.get('tmpl') or [{}, {}])[1].get('data')
             w = dict(backend=backend, aspect=aspect, k=k, errno=errno, rv=q['rvname'])
